@@ -144,6 +144,10 @@ func (fr *frame) get(key ssa.Value) value {
 	}
 	if i, ok := fr.info.index[key]; ok {
 		if r := fr.env[i]; r != nil || fr.isSet[i] {
+			if lz, ok := r.(*lazyVal); ok {
+				r = fr.m.force(lz)
+				fr.env[i] = r
+			}
 			return r
 		}
 	}
@@ -362,6 +366,9 @@ func (m *Machine) visitInstr(fr *frame, instr ssa.Instruction) continuation {
 		if p == nil {
 			m.nilDeref()
 		}
+		if lz, ok := (*p).(*lazyVal); ok {
+			*p = m.force(lz)
+		}
 		fr.set(instr, &(*p).(structure)[instr.Field])
 
 	case *ssa.Field:
@@ -377,6 +384,9 @@ func (m *Machine) visitInstr(fr *frame, instr ssa.Instruction) continuation {
 		case *value: // *array
 			if x == nil {
 				m.nilDeref()
+			}
+			if lz, ok := (*x).(*lazyVal); ok {
+				*x = m.force(lz)
 			}
 			a := (*x).(array)
 			i := m.indexIn(idx, len(a))
@@ -589,7 +599,11 @@ func (m *Machine) runFrame(fr *frame) {
 			case unsupportedErr, pathAbort, engineError:
 				panic(r)
 			}
-			panic(engineError{v: r, stack: string(debug.Stack())})
+			pos, st := m.site()
+			if len(st) > 5 {
+				st = st[:5]
+			}
+			panic(engineError{v: fmt.Sprintf("%v [at %s in %v]", r, pos, st), stack: string(debug.Stack())})
 		}
 		fr.panicking = true
 		fr.panic = r
